@@ -855,12 +855,23 @@ func (g *gen) attackVote(kind string, h uint64, r uint32) *voteMsg {
 func (g *gen) attackPH(h uint64, r uint32, cr uint32) (tmconsensus.ProposedHeader, string, bool) {
 	set := g.w.set(h)
 	parent, cp, ok := g.parentFor(h, cr)
+	// parentQuorum picks the signers of a previous commit proof for parent. When the
+	// harness knows no committed parent (h-1 is still being voted on), parent is junk,
+	// and a mirror voting on h-1 legitimately files these precommits in its voting
+	// round; the honest >2/3 never certify a junk block beside the real one, so only a
+	// <1/3 minority signs it.
+	parentQuorum := func() []int {
+		if !ok {
+			return g.w.minoritySubset(g.rng, h-1)
+		}
+		return g.w.quorumSubset(g.rng, h-1, false)
+	}
 	if !ok {
 		// no committed parent known to the harness for that height: use junk
 		parent = []byte(g.randHash())
 		cp = initialPrevProof()
 		if h > g.w.initH {
-			cp = g.w.commitProofFor(h-1, cr, string(parent), g.w.quorumSubset(g.rng, h-1, false), nil)
+			cp = g.w.commitProofFor(h-1, cr, string(parent), parentQuorum(), nil)
 		}
 	}
 	base := func() tmconsensus.ProposedHeader {
@@ -949,12 +960,20 @@ func (g *gen) attackPH(h uint64, r uint32, cr uint32) (tmconsensus.ProposedHeade
 		pset := g.w.set(h - 1)
 		var bad tmconsensus.CommitProof
 		var desc string
-		switch g.pick(8) {
+		sub := g.pick(8)
+		if !ok && sub != 2 && sub != 3 {
+			// junk parent: validators of h-1 sign it only as a <1/3 minority (see parentQuorum)
+			sub = -1
+		}
+		switch sub {
+		case -1:
+			bad = g.w.commitProofFor(h-1, cr+uint32(g.pick(2)), string(parent), parentQuorum(), nil)
+			desc = "prevcommit-junk-parent-minority"
 		case 0:
 			bad = g.w.commitProofFor(h-1, cr, string(parent), g.w.subQuorumSubset(g.rng, h-1, true), nil)
 			desc = "prevcommit-underpowered"
 		case 1:
-			q := g.w.quorumSubset(g.rng, h-1, false)
+			q := parentQuorum()
 			bad = g.w.commitProofFor(h-1, cr, string(parent), q, map[string][]int{"": {q[0]}})
 			desc = "prevcommit-double-signed"
 		case 2:
@@ -972,15 +991,15 @@ func (g *gen) attackPH(h uint64, r uint32, cr uint32) (tmconsensus.ProposedHeade
 			}
 			desc = "prevcommit-foreign-sigs-right-hash"
 		case 4:
-			bad = g.w.commitProofFor(h-1, cr, string(parent), g.w.quorumSubset(g.rng, h-1, false), nil)
+			bad = g.w.commitProofFor(h-1, cr, string(parent), parentQuorum(), nil)
 			sigs := bad.Proofs[string(parent)]
 			sigs[g.pick(len(sigs))].KeyID = [][]byte{nil, {1}, {0, 0, 0}}[g.pick(3)]
 			desc = "prevcommit-short-keyid"
 		case 5:
-			bad = g.w.commitProofFor(h-1, cr+1, string(parent), g.w.quorumSubset(g.rng, h-1, false), nil)
+			bad = g.w.commitProofFor(h-1, cr+1, string(parent), parentQuorum(), nil)
 			desc = "prevcommit-other-round-valid"
 		case 6:
-			q := g.w.quorumSubset(g.rng, h-1, false)
+			q := parentQuorum()
 			rest := complement(pset.n(), q)
 			others := map[string][]int{}
 			if len(rest) > 0 {
@@ -989,7 +1008,7 @@ func (g *gen) attackPH(h uint64, r uint32, cr uint32) (tmconsensus.ProposedHeade
 			bad = g.w.commitProofFor(h-1, cr, string(parent), q, others)
 			desc = "prevcommit-with-extra-nil-target"
 		default:
-			q := g.w.quorumSubset(g.rng, h-1, false)
+			q := parentQuorum()
 			rest := complement(pset.n(), q)
 			others := map[string][]int{}
 			if len(rest) > 0 {
